@@ -152,6 +152,15 @@ func runC06(c *sim.Ctx) *sim.Violation {
 		if v := c06Giant(c, (1+t.Int(3))<<24, exact); v != nil {
 			return v
 		}
+		if ty := first >> 4; ty >= 4 && ty <= 7 {
+			// acknowledgements: k*2^24 + 2 (the two low bits of a packed header word say
+			// "remaining length 2", the size of the shortest acknowledgement)
+			for k := 1; k <= 3; k++ {
+				if v := c06Giant(c, k<<24+2, first&0xf0|ref.ReservedFlags(ty)); v != nil {
+					return v
+				}
+			}
+		}
 		return c06Giant(c, 1<<24+1+t.Int(4096), first)
 	}
 	if c.Run == 40 || c.Run == 41 || (c.Thorough && c.Run > 41 && c.Run < 64000 && c.Run%2000 == 40) {
